@@ -27,7 +27,7 @@
                      (Norm/Dist singularities are covered by [deriv_ok]: the
                      code raises there.) *)
 From Coq Require Import Reals List Bool ZArith.
-From Verif Require Import Base.Num Base.Vec C06.Syntax Gen.UfuncDeriv C06.Model C06.Calc C06.Lin C06.Leaves C06.Proofs.
+From Verif Require Import Base.Num Base.Vec C06.Syntax Gen.UfuncDeriv C06.Model C06.Calc C06.Lin C06.LinMap C06.Leaves C06.Proofs.
 Import ListNotations.
 Local Open Scope R_scope.
 
@@ -56,6 +56,33 @@ Theorem derivative_is_frechet :
   is_lin D = true /\ wt P D = true /\ dom P D = dom P e /\ ran P D = ran P e.
 Proof. exact deriv_sound. Qed.
 Print Assumptions derivative_is_frechet.
+
+(* On R^n, "bounded" is free: a map that is additive and homogeneous (and maps
+   R^n to R^m) is its own derivative everywhere.  Hence T1 also holds when the
+   premise on user-defined leaves only asks their derivative to be linear. *)
+Theorem linear_maps_are_bounded :
+  forall n m (L : list R -> list R),
+  (forall d, length d = n -> length (L d) = m) /\
+  (forall a b, length a = n -> length b = n -> L (vadd a b) = vadd (L a) (L b)) /\
+  (forall c a, length a = n -> L (vscal c a) = vscal c (L a)) ->
+  blin n m L.
+Proof. exact linmap_blin. Qed.
+Print Assumptions linear_maps_are_bounded.
+
+Theorem derivative_is_frechet_linear_premise :
+  forall (af : nat -> list R -> list R) (ad : nat -> list R -> list R -> list R) (adm arn : nat -> space),
+  (forall k x, length x = sdim (adm k) ->
+     hdiff (sdim (adm k)) (sdim (arn k)) (af k) x (ad k x) /\
+     linmap (sdim (adm k)) (sdim (arn k)) (ad k x)) ->
+  forall (e : @oexpr R) (x : list R),
+  let P := PR af ad adm arn in
+  wt P e = true -> length x = sdim (dom P e) -> deriv_ok P e x = true -> regular af ad adm arn e x ->
+  let D := derivative P e x in
+  hdiff (sdim (dom P e)) (sdim (ran P e)) (eval P e) x (eval P D) /\
+  blin (sdim (dom P e)) (sdim (ran P e)) (eval P D) /\
+  is_lin D = true /\ wt P D = true /\ dom P D = dom P e /\ ran P D = ran P e.
+Proof. exact deriv_sound_linmap. Qed.
+Print Assumptions derivative_is_frechet_linear_premise.
 
 (* T1, in the words of the property: the action of derivative(x) on any
    direction d is the limit of the central difference quotient
